@@ -128,7 +128,7 @@ func opsSuite(t *testing.T, rec *ev.Rec) {
 			if n.Kind == refcodec.Address && gen.RiskAddress(n.Fam, n.B) {
 				continue
 			}
-			op := r.IntN(8)
+			op := r.IntN(10)
 			var err error
 			p, bad := guard(func() {
 				switch op {
@@ -191,6 +191,63 @@ func opsSuite(t *testing.T, rec *ev.Rec) {
 					ref = append(ref, &refcodec.Node{Code: 9010, Flags: 0x40, Kind: refcodec.Unsigned64, U: src.U64})
 					ref = append(ref, &refcodec.Node{Code: 9019, Flags: 0x40, Kind: refcodec.Grouped, Kids: []*refcodec.Node{
 						{Code: 9009, Flags: 0x40, Kind: refcodec.Unsigned32, U: uint64(src.G2.U)}}})
+				case 8:
+					// a Marshal the library refuses: the message keeps what it carried
+					var e error
+					switch which := r.IntN(4); which {
+					case 0:
+						trace = append(trace, "Marshal(refused: unknown AVP name in a tag)")
+						e = m.Marshal(&struct {
+							A uint32 `avp:"No-Such-AVP-Name"`
+						}{A: r.Uint32()})
+					case 1:
+						trace = append(trace, "Marshal(refused: pointer to a non-struct)")
+						x := r.Uint32()
+						e = m.Marshal(&x)
+					case 2:
+						trace = append(trace, "Marshal(refused: not a pointer)")
+						e = m.Marshal(struct{}{})
+					case 3:
+						trace = append(trace, "Marshal(refused: unknown AVP name after a good field)")
+						e = m.Marshal(&struct {
+							H datatype.DiameterIdentity `avp:"Origin-Host"`
+							A uint32                    `avp:"No-Such-AVP-Name"`
+						}{H: "h.example", A: 1})
+					}
+					if e == nil {
+						err = fmt.Errorf("a Marshal that cannot be carried out returned no error")
+					}
+				case 9:
+					// a group assembled top-down: the inner group is put into the outer
+					// one first and filled afterwards, then the outer one joins the message
+					trace = append(trace, "NewAVP(group filled after it was nested)")
+					inner := &diam.GroupedAVP{}
+					outer := &diam.GroupedAVP{}
+					oc, ic := 70000+r.Uint32N(1000), 71000+r.Uint32N(1000)
+					pre := &refcodec.Node{Code: 72000, Flags: 0x40, Kind: refcodec.OctetString, B: randASCII(r, r.IntN(6))}
+					if r.IntN(2) == 0 {
+						outer.AddAVP(diam.NewAVP(pre.Code, pre.Flags, 0, datatype.OctetString(pre.B)))
+					} else {
+						pre = nil
+					}
+					outer.AddAVP(diam.NewAVP(ic, 0x40, 0, inner))
+					in := &refcodec.Node{Code: ic, Flags: 0x40, Kind: refcodec.Grouped}
+					for k := 1 + r.IntN(3); k > 0; k-- {
+						leaf := &refcodec.Node{Code: 73000 + r.Uint32N(10), Flags: 0x40, Kind: refcodec.OctetString, B: randASCII(r, r.IntN(9))}
+						inner.AddAVP(diam.NewAVP(leaf.Code, leaf.Flags, 0, datatype.OctetString(leaf.B)))
+						in.Kids = append(in.Kids, leaf)
+					}
+					on := &refcodec.Node{Code: oc, Flags: 0x40, Kind: refcodec.Grouped}
+					if pre != nil {
+						on.Kids = append(on.Kids, pre)
+					}
+					on.Kids = append(on.Kids, in)
+					if r.IntN(2) == 0 {
+						_, err = m.NewAVP(oc, 0x40, 0, outer)
+					} else {
+						m.AddAVP(diam.NewAVP(oc, 0x40, 0, outer))
+					}
+					ref = append(ref, on)
 				}
 			})
 			if len(trace) == 0 {
